@@ -200,6 +200,10 @@ func (r *c14Run) scriptArg(s int) []byte {
 // guarded runs one call of the real code; a panic or a call that does not
 // return (a send on a full channel under the notifier's mutex) is recorded.
 func c14Guarded(f func() error) (err error, panicked, hung bool) {
+	return c14GuardedFor(5*time.Second, f)
+}
+
+func c14GuardedFor(d time.Duration, f func() error) (err error, panicked, hung bool) {
 	type res struct {
 		err error
 		pan bool
@@ -216,7 +220,7 @@ func c14Guarded(f func() error) (err error, panicked, hung bool) {
 	select {
 	case x := <-ch:
 		return x.err, x.pan, false
-	case <-time.After(5 * time.Second):
+	case <-time.After(d):
 		return fmt.Errorf("call did not return"), false, true
 	}
 }
@@ -402,6 +406,12 @@ func (r *c14Run) step(ev c14Event) (verifkit.Rec, bool) {
 		call = func() error { return fmt.Errorf("unknown action %q", ev.A) }
 	}
 
+	return r.finish(rec, call, &hd)
+}
+
+// finish runs the call of one step (guarded) and completes the trace record
+// with what is then on the clients' channels and in the hint caches.
+func (r *c14Run) finish(rec verifkit.Rec, call func() error, hd *[]int) (verifkit.Rec, bool) {
 	err, pan, hung := c14Guarded(call)
 	rec["err"], rec["panic"], rec["hang"], rec["errmsg"] = 0, 0, 0, ""
 	if err != nil {
@@ -414,7 +424,7 @@ func (r *c14Run) step(ev c14Event) (verifkit.Rec, bool) {
 	if hung {
 		rec["hang"] = 1
 	}
-	rec["hd"] = hd
+	rec["hd"] = *hd
 	if !hung {
 		rec["ev"] = r.drain()
 		ch, sh := r.queryHints()
